@@ -13,7 +13,8 @@ TECH = ("bounded symbolic execution of the real go/ssa code (gosym) with SMT (z3
 CLAIMS = {
  "C01": ("For symbolic flat IR (1 controller x 1 route with rich slash structure in prefix and route; 2 controllers x 1 route and 1 controller x 2 routes with plain shapes; verb, hidden, deprecated symbolic) "
          "the in-memory documents produced by the real swagen30 and swagen31 GenerateControllersSpec contain an operation at (path, verb) iff a visible route normalises there (reference byte-loop normaliser); "
-         "unique operations carry the route's operationId, its own controller's tag and deprecated flag; hidden routes never contribute; nothing else is documented.",
+         "unique operations carry the route's operationId, its own controller's tag and deprecated flag; hidden routes never contribute; nothing else is documented. "
+         "(annotation side) for symbolic @Method/@Route/@Hidden/@Deprecated/@Tag annotations the real ControllerMeta.Reduce yields a route with exactly that verb, path, hiding, deprecation and tag, and both documents show or hide it accordingly.",
          "Bounds as coded in harness/.../generator/swagen/zz_verif_c01.go. Gate assumption: routes whose templates differ only in parameter names are excluded (kin-openapi validation rejects them: 'conflicting paths', so no document is emitted). "
          "Outside: discovery of controllers/methods in source (go/ast, go/types), JSON encoding of the in-memory document.",
          "DESIGN.md 4 (C01)"),
@@ -41,12 +42,13 @@ CLAIMS = {
          "DESIGN.md 4 (C04)"),
  "C07": ("Emitter half: for a model list of two structs (one with up to 2 symbolic fields over 9 (thorough 11) type shapes incl. slices, maps, enum, alias, other struct, embedded struct, time, bytes; symbolic json tag and validate tag), an enum with 1-2 symbolic values and an alias, "
          "both GenerateModelsSpec produce exactly one component per model; properties are the JSON-visible fields with mapped type or $ref, required = fields validated as required, embedded structs via allOf, enum lists its constants, alias maps to its primitive; "
-         "metamorphic non-interference: every other component is structurally identical whether or not the using struct carries usage-site validators; every $ref names an existing component; 3.0 and 3.1 components agree.",
-         "Bounds as coded in harness/.../generator/swagen/zz_verif_c07.go. Outside: reachability closure and enum-constant discovery over Go type graphs (go/types visitors), json:\"-\" filtering (done by the struct visitor), RFC-7807 model injection (AppendErrorSchema is a literal).",
+         "metamorphic non-interference: every other component is structurally identical whether or not the using struct carries usage-site validators; every $ref names an existing component; 3.0 and 3.1 components agree. "
+         "Visitor half (enum values): for a hand-built go/types package with an enum type (string or int) and every subset of four constants (exported and unexported names) typed as the enum, another named type or the plain basic type, EnumVisitor.getEnumValueDefinitions returns exactly the constants of the enum's type with their declared values.",
+         "Bounds as coded in harness/.../generator/swagen/zz_verif_c07.go. Outside: reachability closure over Go type graphs (go/types visitors; only the enum-constant collection is driven, on hand-built packages), json:\"-\" filtering (done by the struct visitor), RFC-7807 model injection (AppendErrorSchema is a literal).",
          "DESIGN.md 4 (C07)"),
  "C08": ("(gate) swagen.GenerateAndOutputSpec / GenerateSpec / both GenerateSpec run with the 3.0 validator, the 3.1 renderer, libopenapi.NewDocument, the 3.1 validator, os.MkdirAll and os.WriteFile replaced by nondeterministic stubs (every combination of success and failure, three openapi versions): "
          "the file is written at most once, only after the 3.0 validation - which always runs - and every step of the selected version succeeded, with the selected version's bytes; any failure or an unsupported version is an error and writes nothing. "
-         "(closure facts) enum values put on a schema by enum=/oneof= rules are of the schema's declared type in both dialects (symbolic rule values); every $ref names an existing component (C07 harness); every response has a description (C06 harness); path-template/parameter correspondence is enforced by the always-executed kin-openapi validation (trusted).",
+         "(reference closure) for routes whose parameter (body/query/form), return and error types and whose model field range over declared, undeclared and nested (slice, map, slice of slice) type names, every $ref of the 3.0 document resolves to a component or is left unresolved (nil value) - which the always-executed 3.0 validation rejects - and the 3.1 document references nothing the 3.0 document does not. (closure facts) enum values put on a schema by enum=/oneof= rules are of the schema's declared type in both dialects (symbolic rule values); every $ref names an existing component (C07 harness); every response has a description (C06 harness); path-template/parameter correspondence is enforced by the always-executed kin-openapi validation (trusted).",
          "Bounds as coded in harness/.../generator/swagen/zz_verif_c08.go. The gate harness is engine-only: injected library/OS faults cannot be reproduced by a native run, so its counterexamples are re-executed concretely inside the engine instead. Outside: the validity judgement of kin-openapi/libopenapi themselves and the JSON encoders (trusted libraries); info/servers copying (inside GenerateSpec, between stubs) is not asserted.",
          "DESIGN.md 4 (C08)"),
  "C10": ("Receiver-level accept decision (CommonValidator + validateParams + annotation linker, as ReceiverValidator.Validate combines them) for every route with <=1 URL name, <=2 function parameters (primitive or struct, optional context), <=2 parameter annotations "
@@ -57,23 +59,29 @@ CLAIMS = {
  "C06": ("(a) Requiredness kernel: for every validator string up to 9 (thorough 12) bytes over the tag alphabet, pointer-ness and location, appendParamRequiredValidation + IsFieldRequired agree with the property's rule. "
          "(b) Documents: for routes with up to 2 parameters (context or one of 5 locations, symbolic wire name, 5 type shapes, 4 validators) and, separately, symbolic return shape / success code / 0-2 error codes / error type, "
          "both emitters document exactly the non-context path/query/header parameters in signature order (name, location, required, schema), the JSON body or the urlencoded form object with its required entries, "
-         "the success response with the value schema or no content, each error code with the error schema (RFC-7807 for plain error), and a description on every response; 3.0 and 3.1 agree (one recorded 3.0-only `default` response).",
+         "the success response with the value schema or no content, each error code with the error schema (RFC-7807 for plain error), and a description on every response; 3.0 and 3.1 agree (one recorded 3.0-only `default` response). "
+         "(c) Signature order: for 2-4 parameters under every grouping of the declaration (ordinals numbered as AstArbitrator.GetFuncParametersMeta numbers them, which collide for groups), ReceiverMeta.Reduce keeps the parameters in declaration order.",
          "Bounds as coded in harness/.../core/metadata/zz_verif_c06.go and generator/swagen/zz_verif_c06.go. Routes are assumed accepted (at most one body, never body with form; unique wire names per location). Outside: how TypeMeta is derived from Go types.",
          "DESIGN.md 4 (C06)"),
  "C11": ("Dialect agreement, decided on shared symbolic inputs inside one path: (kernel) for every validation string of up to 2 rules from the converters' vocabulary (or a junk rule) with symbolic values of up to 2 bytes, on 6 field types, "
          "BuildSchemaValidation (3.0) and BuildSchemaValidationV31 yield the same format, pattern, numeric bounds with exclusivity, length and item bounds, uniqueItems and enum value lists after dialect translation; "
-         "(documents) the C01 and C04 harnesses run both emitters on the same symbolic flat IR and assert the same operations, operationIds, tags, deprecated flags and security for both.",
-         "Bounds as coded in harness/.../generator/swagen/zz_verif_c11.go, zz_verif_c01.go, zz_verif_c04.go. strconv.ParseFloat is interpreted from source (symbolic digits are enumerated). Parameters/bodies/responses and component schemas are compared only as far as C06/C07 harnesses exist.",
+         "(documents) the C01 and C04 harnesses run both emitters on the same symbolic flat IR and assert the same operations, operationIds, tags, deprecated flags and security for both; "
+         "(operations) for routes with symbolic parameters (location, type, validator) and symbolic return shape / success code / 0-2 error codes - including an error code equal to the success code - both documents list the same parameters, request body and responses with the same schemas.",
+         "Bounds as coded in harness/.../generator/swagen/zz_verif_c11.go, zz_verif_c01.go, zz_verif_c04.go. strconv.ParseFloat is interpreted from source (symbolic digits are enumerated). Component schemas are compared as far as the C07 harness goes.",
          "DESIGN.md 4 (C11)"),
  "C13": ("Pipeline tail: on a hand-built symbol graph with 2 (thorough 3) controllers (symbolic sort order of names) whose routes use different imported types, two independent executions of the real getReducedControllers, "
-         "each under an arbitrary (symbolic) Go map iteration order of every map it ranges over, return the same controllers in the same (sorted) order with the same import serials.",
-         "Bounds as coded in harness/.../core/pipeline/zz_verif_c13.go. Symbolic map iteration order is an engine feature (every range over a map forks over the remaining entries). Outside: order of packages.Load results and file globbing, Handlebars rendering, encoding/json key order, the date comment; getImports/getModels orderings are not yet driven.",
+         "each under an arbitrary (symbolic) Go map iteration order of every map it ranges over, return the same controllers in the same (sorted) order with the same import serials. "
+         "File enumeration: PackagesFacade.GetAllSourceFiles (which decides the order of a controller's routes) returns 3 files with symbolic names in the same order under every map iteration order. "
+         "Spec writer: sortEnumValues/ForceOrderedJSON produce the same bytes for every arrival order of 3 symbolic enum values (strings of 1-2 bytes, numbers) at each of 7 placements in components.schemas. "
+         "No carried state (engine-only): registerPartials registers the same partials and extensions for a configuration whether or not another configuration (any engine, template override, template extension, unreadable file) was generated before it in the process.",
+         "Bounds as coded in harness/.../core/pipeline/zz_verif_c13.go. Symbolic map iteration order is an engine feature (every range over a map forks over the remaining entries). Stand-ins in the engine-only harness: os.ReadFile, the handlebars library's process-wide partial registry. Outside: order of packages.Load results, Handlebars rendering, encoding/json key order, the date comment; getImports/getModels orderings are not driven.",
          "DESIGN.md 4 (C13)"),
  "C19": ("Mechanism level: SyncedProvider hands the same serial to the same key and different serials to different keys over every sequence of 4 lookups with symbolic keys; MetadataCache's Start/FinishMaterializing/AddStruct protocol equals a map model over every sequence of 3 operations; "
          "GenerateIntermediate called twice on one long-lived pipeline (hand-built graph) returns the same controllers/routes/serials/models, does not grow the graph, and equals a brand-new session.",
          "Bounds as coded in harness/.../core/pipeline/zz_verif_c13.go (vh_C19_*). Outside (the larger half): GenerateGraph/Validate re-runs over real ASTs (visitor state, GetFileVersion) need go/packages and are not encoded.",
          "DESIGN.md 4 (C19)"),
  "C14": ("Crash freedom, decided by reachability of a panic on every path of the bound: both schema validation converters on every validation string of one rule (vocabulary or junk) with a symbolic value of up to 2 bytes on 6 field types incl. a $ref type; "
+         "both model emitters on a struct field whose tag is free text (5 prefixes x 0-3 symbolic bytes over letters, quote, comma, '=' x 5 suffixes: missing closing quotes, empty values, stray quotes); annotation parsing and validators through vh_C14_* wrappers; "
          "in addition every other harness of this suite treats a reachable panic in the code under test as a violation (FindConflicts, symbol graph operations, annotation parsing, validators, both emitters).",
          "Bounds as coded in harness/.../generator/swagen/zz_verif_c11.go (vh_C14_*). Outside: go/packages loading, visitors, Handlebars, json5, cobra; wall-clock bounds of the real CLI; loops are bounded by the engine's instruction budget (exhaustion is reported as inconclusive, never as success).",
          "DESIGN.md 4 (C14)"),
@@ -97,8 +105,10 @@ CLAIMS = {
          "Bounds as coded in harness/.../graphs/symboldg/zz_verif_c17.go. Histories are bounded (no inductive step yet); AddStruct/AddEnum/AddField composite insertions are not yet driven.",
          "DESIGN.md 4 (C17)"),
  "C20": ("Honoured-in-output kernel: for every permission string up to the stated length, if the configuration validator's own pattern (read from the struct tag, matched by the real regexp package executed symbolically) accepts it, "
-         "getOutputFileMod returns exactly its octal value (0644 for empty); PermissionStringToFileMod errors iff the string is not an octal numeral within 0o7777.",
-         "Bounds as coded in harness/.../generator/routes/zz_verif_c20.go. Outside: json5 decoding and go-playground validator semantics, controllerGlobs, file modes applied by the OS, the other config fields (not yet covered).",
+         "getOutputFileMod returns exactly its octal value (0644 for empty); PermissionStringToFileMod errors iff the string is not an octal numeral within 0o7777. "
+         "Security schemes (apiKey and oauth2 with symbolic flows/scopes) are copied into both documents flow by flow. Info (title, description, version, terms, optional license and contact, symbolic text) and the base URL are read back from the bytes GenerateSpec returns for 3.0 and 3.1. "
+         "Glob filter (engine-only): loadPackagesFiltered registers exactly the glob-matched files of the loaded packages for every subset of 3 files in 2 packages, and nothing when the load fails.",
+         "Bounds as coded in harness/.../generator/routes/zz_verif_c20.go. Stand-ins: packages.Load (returns the harness's packages or fails), the 3.0 validator and the 3.1 renderer/validator (generations they refuse are discarded; the 3.1 renderer stand-in writes the document's own version/info/servers). Outside: json5 decoding and go-playground validator semantics (reflection), doublestar globbing, file modes applied by the OS, engine/package-name selection in the templates.",
          "DESIGN.md 4 (C20)"),
 }
 
